@@ -1,7 +1,9 @@
 // =============================================================================
 // TRUSTED PRELUDE (unit `connector`, module `svc`): stand-ins for what client/pool/service.rs uses from
 // client::pool.  `Pool::checkout` (contract proved in unit `pool`), `Checkout::{new, detached, poll}` (proved in
-// unit `checkout`) are opaque here: a checkout only *records* what it was created from (ghost).
+// unit `checkout`) are opaque here.  Their contracts are HAND COPIES in this unit's vocabulary; each is tied to the proved
+// contract mechanically: `//@ refine` wrappers in units/pool.vxu / units/checkout.vxu (Verus checks the stand-in text against
+// the proved contract), `//@ samecontract` for `Checkout::poll` (notes/imports.md).
 // =============================================================================
 /// `pool::key::UriError`
 #[verifier::external_body]
@@ -47,27 +49,45 @@ pub trait PoolableStream {}
 pub struct Pooled<C, B> { _p: PhantomData<(C, B)> }
 impl<C: Connection<B>, B> Connection<B> for Pooled<C, B> { type ResBody = C::ResBody; }
 
-/// `pool::Checkout<T, P, B>`: ghost record of how it was created
+/// `pool::key::Token` (the pool files everything under the token of the key): opaque here
+#[verifier::external_body]
+pub struct Token { _p: PhantomData<()> }
+/// the token of a key (unit `pool`: `token_of`; unit `tokenmap` proves the map behind it)
+pub uninterp spec fn token_of<K>(k: K) -> Token;
+
+/// `pool::Checkout<T, P, B>`: opaque here, with ghost attributes named after the spec functions units `pool` / `checkout`
+/// define on the REAL struct (prelude/checkout_spec.rs, prelude/checkout_link.rs)
 #[verifier::external_body]
 #[verifier::reject_recursive_types(T)]
 #[verifier::reject_recursive_types(P)]
 #[verifier::reject_recursive_types(B)]
 pub struct Checkout<T, P, B> where T: Transport, P: Protocol<T::IO, B> { _p: PhantomData<(T, P, B)> }
 impl<T, P, B> Checkout<T, P, B> where T: Transport, P: Protocol<T::IO, B> {
-    /// created by `Pool::checkout` (false: `Checkout::detached`, no pool involved)
+    /// belongs to a pool (false: `Checkout::detached`)
     pub uninterp spec fn via_pool(&self) -> bool;
-    /// the key it was checked out under
-    pub uninterp spec fn key<K>(&self) -> K;
-    /// the multiplex flag given to `Pool::checkout`
+    /// the token it was checked out under
+    pub uninterp spec fn token(&self) -> Token;
+    /// it owns a connection attempt (nothing usable was idle and no attempt was in flight; always for a detached one)
+    pub uninterp spec fn will_dial(&self) -> bool;
+    /// the connector of that attempt (meaningful while `will_dial()`)
+    pub uninterp spec fn dial(&self) -> Connector<T, P, B>;
+    /// GHOST ARGUMENT RECORD, proved nowhere: the multiplex flag `Pool::checkout` was called with.  The real `Checkout` does
+    /// not keep the flag (it only decides whether the pool sets its in-flight marker: unit pool, checkout.dial_marks /
+    /// checkout.h1_no_marker).  Definable as a history variable because every `Pool::checkout` returns a checkout with a fresh
+    /// channel; listed as an assumption.
     pub uninterp spec fn multiplex(&self) -> bool;
-    /// the connector it dials with when no pooled connection is available
-    pub uninterp spec fn connector(&self) -> Connector<T, P, B>;
 
-    /// `Checkout::detached` (unit `checkout`: ck.detached.*)
+    /// `Checkout::detached` (unit `checkout`: ck.detached.state / ck.detached.live).  The clauses above the cut are checked
+    /// against that contract by `//@ refine link.connector.checkout_detached` in units/checkout.vxu.
     #[verifier::external_body]
     pub fn detached(connector: Connector<T, P, B>) -> (r: Self)
         requires connector.wf(),
-        ensures !r.via_pool(), r.connector() == connector, r.polls() == 0 && r.last() is None,
+        ensures
+            !r.via_pool(),
+            r.will_dial() && r.dial() == connector,
+            // ---- NOT REFINED (no unit proves it): convention of the `Future` model of prelude/connector.rs - a future that has
+            // just been created has no poll history.  (Unit checkout proves `r.wf()`: it may be polled.)
+            r.polls() == 0 && r.last() is None,
     { unimplemented!() }
 }
 /// `impl Future for Checkout` (unit `checkout`: ck.poll.*), as a `Future` of the model in prelude/connector.rs
@@ -88,12 +108,21 @@ impl<T, P, B> Future for Checkout<T, P, B> where T: Transport, P: Protocol<T::IO
 #[verifier::reject_recursive_types(K)]
 pub struct Pool<C, B, K> { _p: PhantomData<(C, B, K)> }
 impl<C, B, K> Pool<C, B, K> {
-    /// `Pool::checkout` (unit `pool`: checkout.*): the connector must be fresh / live
+    /// `Pool::checkout` (unit `pool`: checkout.tok, checkout.via_pool, checkout.dials_with).  The clauses above the cut are checked
+    /// against that contract by `//@ refine link.connector.pool_checkout` in units/pool.vxu (parameter names as in the real fn).
+    /// It used to promise `r.key() == key`, `r.connector() == connector` (unconditionally - but on reuse / wait the connector
+    /// is DROPPED) and `r.multiplex() == multiplex`: ghost records of the arguments that no unit proved.
     #[verifier::external_body]
     pub fn checkout<T, P>(&self, key: K, multiplex: bool, connector: Connector<T, P, B>) -> (r: Checkout<T, P, B>)
         where T: Transport, P: Protocol<T::IO, B, Connection = C>
         requires connector.wf(),
-        ensures r.via_pool(), r.key::<K>() == key, r.multiplex() == multiplex, r.connector() == connector,
+        ensures
+            r.via_pool(),
+            r.token() == token_of(key),
+            r.will_dial() ==> r.dial() == connector,
+            // ---- NOT REFINED (no unit proves them): the ghost ARGUMENT RECORD `multiplex()` (see its declaration), and the
+            // convention of the `Future` model that a new future has no poll history (unit pool proves `r.wf()`: may be polled)
+            r.multiplex() == multiplex,
             r.polls() == 0 && r.last() is None,
     { unimplemented!() }
 }
